@@ -65,6 +65,15 @@ func checkTimeFoldOnEveryPath(p *Program, r *Result, rule string) {
 			}
 		}
 	}
+	// a block that stores the log time into the field has folded it as well (if first || t < start: the first message
+	// takes the store without the comparison)
+	for _, f := range []string{"MessageStartTime", "MessageEndTime"} {
+		for _, st := range fieldStores(fn, "Statistics", f) {
+			if isMessageLogTime(p, st.Val) {
+				foldBlocks[f][st.Block()] = true
+			}
+		}
+	}
 	writes := callsIn(fn, func(ci ssa.CallInstruction) bool {
 		if calleeRepoName(ci) != "mcap.Writer.writeRecord" {
 			return false
